@@ -29,8 +29,11 @@ import (
 	cmtlightdb "github.com/cometbft/cometbft/light/store/db"
 	cmttypes "github.com/cometbft/cometbft/types"
 
+	beaconAPI "github.com/oasisprotocol/oasis-core/go/beacon/api"
+	"github.com/oasisprotocol/oasis-core/go/common/pubsub"
 	consensusAPI "github.com/oasisprotocol/oasis-core/go/consensus/api"
 	"github.com/oasisprotocol/oasis-core/go/consensus/api/transaction"
+	"github.com/oasisprotocol/oasis-core/go/consensus/cometbft/beacon"
 	"github.com/oasisprotocol/oasis-core/go/consensus/cometbft/consensus"
 	"github.com/oasisprotocol/oasis-core/go/consensus/cometbft/light"
 	"github.com/oasisprotocol/oasis-core/go/consensus/cometbft/stateless"
@@ -136,7 +139,20 @@ type fakeBackend struct {
 	params *consensusAPI.Parameters
 	proof  *transaction.Proof
 
+	// watchCh feeds Core.Serve (WatchBlocks of the provider).
+	watchCh chan *consensusAPI.Block
+
 	calls map[string]int
+}
+
+type noopSub struct{}
+
+func (noopSub) Close() {}
+
+// WatchBlocks hands the Core the harness-owned block channel.
+func (b *fakeBackend) WatchBlocks(context.Context) (<-chan *consensusAPI.Block, pubsub.ClosableSubscription, error) {
+	b.calls["WatchBlocks"]++
+	return b.watchCh, noopSub{}, nil
 }
 
 var errNoResponse = fmt.Errorf("fake provider: no response configured")
@@ -195,15 +211,36 @@ func (b *fakeBackend) SubmitTxWithProof(context.Context, *transaction.SignedTran
 // querier of the stateless node: it returns the trusted consensus parameters.
 type fakeQueryFactory struct {
 	params *consensusGenesis.Parameters
+	// byHeight, if set, gives the verified state's parameters per height (the
+	// Oasis consensus parameters live in state and change between heights).
+	byHeight func(height int64) *consensusGenesis.Parameters
 }
 
 type fakeQuery struct {
 	params *consensusGenesis.Parameters
 }
 
-func (f *fakeQueryFactory) QueryAt(context.Context, int64) (consensus.Query, error) {
+func (f *fakeQueryFactory) QueryAt(_ context.Context, height int64) (consensus.Query, error) {
+	if f.byHeight != nil {
+		p := f.byHeight(height)
+		if p == nil {
+			return nil, fmt.Errorf("fake state: no parameters at height %d", height)
+		}
+		return &fakeQuery{params: p}, nil
+	}
 	return &fakeQuery{params: f.params}, nil
 }
+
+// fakeBeacon is the beacon querier needed by Core.GetStatus.
+type fakeBeaconFactory struct{}
+
+type fakeBeaconQuery struct{ beacon.Query }
+
+func (fakeBeaconFactory) QueryAt(context.Context, int64) (beacon.Query, error) {
+	return fakeBeaconQuery{}, nil
+}
+
+func (fakeBeaconQuery) Epoch(context.Context) (beaconAPI.EpochTime, int64, error) { return 7, 1, nil }
 
 func (q *fakeQuery) ChainContext(context.Context) (string, error) { return "", nil }
 func (q *fakeQuery) ConsensusParameters(context.Context) (*consensusGenesis.Parameters, error) {
@@ -227,6 +264,8 @@ type rigSpec struct {
 	trustH  int64
 	trustID []byte
 	trusted *consensusGenesis.Parameters
+	// paramsAt, if set, replaces trusted: parameters of the verified state per height.
+	paramsAt func(height int64) *consensusGenesis.Parameters
 }
 
 func newRig(spec rigSpec) (*rig, error) {
@@ -244,9 +283,9 @@ func newRig(spec rigSpec) (*rig, error) {
 	if err != nil {
 		return nil, err
 	}
-	fb := &fakeBackend{latest: spec.latest, calls: map[string]int{}}
+	fb := &fakeBackend{latest: spec.latest, calls: map[string]int{}, watchCh: make(chan *consensusAPI.Block, 1)}
 	core := stateless.NewCore(fb, lc, stateless.Config{ChainContext: "verif"})
-	core.SetQueriers(nil, &fakeQueryFactory{params: spec.trusted}, nil)
+	core.SetQueriers(fakeBeaconFactory{}, &fakeQueryFactory{params: spec.trusted, byHeight: spec.paramsAt}, nil)
 	return &rig{fb: fb, lc: lc, core: core}, nil
 }
 
